@@ -96,8 +96,13 @@ pub struct ValidationErrorDbg { _p: u8 }
 
 // ------------------------------------------------------------------ spec side (from the property)
 // the proof for this block verifies for all watched outpoints with a majority of the trusted oracles
-pub uninterp spec fn proof_and_majority_ok<L: ChainListener>(listeners: VxListeners<L>, oracles: Vec<PublicKey>, network: Network, proof: TxoProof, height: u32, header: BlockHeader,
-    external: Option<BlockHash>, prev_filter_header: FilterHeader, is_remove: bool) -> bool;
+// (`watches`: the outpoints the proof is checked for)
+pub uninterp spec fn proof_and_majority_ok(watches: Set<OutPoint>, oracles: Vec<PublicKey>, network: Network, proof: TxoProof, height: u32, header: BlockHeader,
+    external: Option<BlockHash>, prev_filter_header: FilterHeader) -> bool;
+// every outpoint some registered listener watches - and, with `include_seen` (block removal), every outpoint some listener has
+// already seen spent.  get_all_forward_watches / get_all_reverse_watches are VERIFIED to return exactly this set in unit
+// tracker_watches (where it is defined over the listener slots); here it names the set by the same name
+pub uninterp spec fn watched_outpoints<L: ChainListener>(listeners: VxListeners<L>, include_seen: bool) -> Set<OutPoint>;
 
 pub open spec fn retarget_rule_ok(network: Network, height: u32, prev: BlockHeader, header: BlockHeader) -> bool {
     if network == Network::Testnet && hdr_target(header) == spec_max_target(network) && header.time > prev.time + 60 * 20 {
@@ -115,7 +120,8 @@ pub open spec fn block_follows<L: ChainListener>(listeners: VxListeners<L>, orac
     &&& headers.0.prev_blockhash == hdr_hash(prev.0)
     &&& pow_ok(headers.0)
     &&& retarget_rule_ok(network, height, prev.0, headers.0)
-    &&& (prev.1.is_all_zero() || proof_and_majority_ok(listeners, oracles, network, proof, (height + 1) as u32, headers.0, external, prev.1, is_remove))
+    // the proof is checked for ALL watched outpoints; for a removal also for the outpoints already seen spent
+    &&& (prev.1.is_all_zero() || proof_and_majority_ok(watched_outpoints(listeners, is_remove), oracles, network, proof, (height + 1) as u32, headers.0, external, prev.1))
 }
 // what a refused request must leave alone (C13): tip, height, remembered headers, watches and monitors
 pub open spec fn tracker_same<L: ChainListener>(a: ChainTracker<L>, b: ChainTracker<L>) -> bool {
@@ -157,10 +163,15 @@ impl<L: ChainListener> ChainTracker<L> {
     { unimplemented!() }
     #[verifier::external_body]
     fn vx_validator_validate_block(&self, proof: &TxoProof, height: u32, header: &BlockHeader, external: Option<&BlockHash>,
-        prev_filter_header: &FilterHeader, is_remove: bool) -> (r: Result<(), ValidationErrorDbg>)
-        ensures r.is_ok() ==> proof_and_majority_ok(self.listeners, self.trusted_oracle_pubkeys, self.network, *proof, height, *header,
-            (match external { Some(h) => Some(*h), None => None }), *prev_filter_header, is_remove),
+        prev_filter_header: &FilterHeader, outpoint_watches: &Vec<OutPoint>) -> (r: Result<(), ValidationErrorDbg>)
+        ensures r.is_ok() ==> proof_and_majority_ok(outpoint_watches@.to_set(), self.trusted_oracle_pubkeys, self.network, *proof, height, *header,
+            (match external { Some(h) => Some(*h), None => None }), *prev_filter_header),
     { unimplemented!() }
+    // assumed here, VERIFIED in unit tracker_watches (same clauses)
+    #[verifier::external_body]
+    pub fn get_all_forward_watches(&self) -> (r: (Vec<Txid>, Vec<OutPoint>)) ensures r.1@.to_set() == watched_outpoints(self.listeners, false) { unimplemented!() }
+    #[verifier::external_body]
+    pub fn get_all_reverse_watches(&self) -> (r: (Vec<Txid>, Vec<OutPoint>)) ensures r.1@.to_set() == watched_outpoints(self.listeners, true) { unimplemented!() }
 
     // `for (listener, _) in self.listeners.values() { listener.on_streamed_block_start(); }`: every registered monitor is told
     // (call marker; what a monitor does with it is verified in unit monitor_done: it drops its partial decode state)
@@ -200,10 +211,9 @@ impl<L: ChainListener> ChainTracker<L> {
     requires height < 0x7fff_ffff, prev_headers.0.time <= 0xffff_0000,
     ensures
         r.is_ok() ==> block_follows(self.listeners, self.trusted_oracle_pubkeys, self.network, height, (match external_block_hash { Some(h) => Some(*h), None => None }),
-            *prev_headers, *headers, *proof, is_remove),                                            //[C13.validate.follows]
-//@sub /let \(_, outpoint_watches\) =\s*if is_remove \{ self\.get_all_reverse_watches\(\) \} else \{ self\.get_all_forward_watches\(\) \};/ => 
+            *prev_headers, *headers, *proof, is_remove),                                            //[C13.validate.follows] [C13.validate.proof-checked-for-all-watched-outpoints]
 //@sub /let validator = self\.validator_factory\.make_validator\(self\.network, self\.node_id, None\);/ => 
-//@sub /validator\s*\.validate_block\(\s*proof,\s*height \+ 1,\s*header,\s*external_block_hash,\s*prev_filter_header,\s*&outpoint_watches,\s*&self\.trusted_oracle_pubkeys,\s*\)/ => self.vx_validator_validate_block(proof, height + 1, header, external_block_hash, prev_filter_header, is_remove)
+//@sub /validator\s*\.validate_block\(\s*proof,\s*height \+ 1,\s*header,\s*external_block_hash,\s*prev_filter_header,\s*(&\w+),\s*&self\.trusted_oracle_pubkeys,\s*\)/ => self.vx_validator_validate_block(proof, height + 1, header, external_block_hash, prev_filter_header, \1)
 //@end
 
 //@fn vls-core/src/chain/tracker.rs :: impl<L: ChainListener> ChainTracker<L> :: add_block props=C13,C10
